@@ -1,5 +1,6 @@
 import json
 import pathlib
+import re
 
 from pyrtma.parser import (
     Parser,
@@ -112,9 +113,15 @@ class MatlabDefCompiler:
         )
 
     def generate_constant_string(self, c: ConstantString):
-        # matlab string literals have no backslash escapes, a quote is written twice
-        text = json.loads(c.value).replace('"', '""')
-        return self.generate_field("defines", self.sanitize_name(c.name), f'"{text}"')
+        # matlab string literals have no backslash escapes, a quote is written twice;
+        # a control character (a line break would end the statement) is appended by its code
+        parts = re.split(r"([\x00-\x1f\x7f])", json.loads(c.value))
+        value = " + ".join(
+            f"char({ord(part)})" if n % 2 else '"' + part.replace('"', '""') + '"'
+            for n, part in enumerate(parts)
+            if n == 0 or part
+        )
+        return self.generate_field("defines", self.sanitize_name(c.name), value)
 
     def generate_host_id(self, hid: HID) -> str:
         return self.generate_field("HID", self.sanitize_name(hid.name), hid.value)
